@@ -317,26 +317,7 @@ pub fn c08_int_mul_half2() {
     forget(r);
 }
 
-/// Unary minus through the public API (`Program::compile("-x")` with x bound to an int variable).
-/// The parser and `Value::resolve` cannot be executed by Kani: this body is decided by the MIR
-/// engine on the NEGATE arm of `Value::resolve` (mirsym/c08_neg.py) and is what the driver replays
-/// natively for a counterexample of that engine (tier "off").
-pub fn c08_unary_minus() {
-    let i: i64 = any();
-    let p = cel_interpreter::Program::compile("-x").unwrap();
-    let mut ctx = cel_interpreter::Context::default();
-    ctx.add_variable_from_value("x", Value::Int(i));
-    let r = p.execute(&ctx);
-    if i == i64::MIN {
-        check!(is_overflow(&r) || r.is_err(), "-(i64::MIN) is an overflow error, not a panic or a wrapped value");
-    } else {
-        check!(as_int(&r) == Some(-i), "unary minus is exact");
-    }
-    forget(r);
-}
-
 crate::harnesses! {
-    #[kani::unwind(2)] c08_unary_minus: "off", "Program::compile + Value::resolve NEGATE arm (native replay body for the MIR engine)", "i: all i64";
     #[kani::unwind(2)] c08_int_add: "quick", "<Value as Add>::add (Int,Int)", "a,b: all i64; oracle i128";
     #[kani::unwind(2)] c08_int_sub: "quick", "<Value as Sub>::sub (Int,Int)", "a,b: all i64; oracle i128";
     #[kani::unwind(2)] c08_int_mul: "thorough", "<Value as Mul>::mul (Int,Int)", "a,b: all i64; oracle i128";
